@@ -504,6 +504,7 @@ class Type1TagMemoryReader(object):
         assert isinstance(tag, Type1Tag)
         self._data_from_tag = bytearray()
         self._data_in_cache = bytearray()
+        self._unknown = set()  # addresses where a write command failed
         self._tag = tag
         self._header_rom = bytearray(0)
         # read header_rom and static memory
@@ -559,14 +560,21 @@ class Type1TagMemoryReader(object):
         if hr0 >> 4 == 1 and hr0 & 0x0F != 1:
             for i in range(0, stop, 8):
                 data = self._data_in_cache[i:i+8]
-                if data != self._data_from_tag[i:i+8]:
+                if data != self._data_from_tag[i:i+8] or i in self._unknown:
+                    # what the tag holds is not known until the write
+                    # command has completed (it may have been executed
+                    # although the response was lost)
+                    self._unknown.add(i)
                     self._tag.write_block(i//8, data)
+                    self._unknown.discard(i)
                     self._data_from_tag[i:i+8] = data
         else:
             for i in range(0, stop):
                 data = self._data_in_cache[i]
-                if data != self._data_from_tag[i]:
+                if data != self._data_from_tag[i] or i in self._unknown:
+                    self._unknown.add(i)  # see above
                     self._tag.write_byte(i, data)
+                    self._unknown.discard(i)
                     self._data_from_tag[i] = data
 
     def synchronize(self):
